@@ -28,6 +28,7 @@ func runC03(c *Ctx) {
 	placedAttached(c)
 	registryAgreement(c)
 	cdxAutoRef(c)
+	driverStateRule(c, "driver-keeps-no-state", []string{cdxSer, spdxSer, "beta.(*SPDX3).Serialize"}, newOrigins(c.P))
 }
 
 // placedAttached: C03-D2.
